@@ -53,24 +53,72 @@ func hashText(s []byte) string {
 	return fmt.Sprint(h)
 }
 
+// The caller's configuration belongs to the caller: one allocated (mostly empty) blacklist map is handed to every second
+// generator run of this process that has none of its own - as inspc does for an empty blacklist file - and every run's map
+// must be after the run what it was before it.  A generator that records what it parsed in the caller's map makes the next
+// compiler built from the same configuration (the XML dump, the second target, a second run) see other declarations.
+var sharedBL = map[string]struct{}{}
+var confRuns int
+
+func guardBL(conf *inspector.Config) func() error {
+	confRuns++
+	if conf.BlackList == nil && confRuns%2 == 1 {
+		conf.BlackList = sharedBL
+	}
+	bl := conf.BlackList
+	before := map[string]struct{}{}
+	for k := range bl {
+		before[k] = struct{}{}
+	}
+	return func() error {
+		same := len(bl) == len(before)
+		for k := range bl {
+			if _, ok := before[k]; !ok {
+				same = false
+				delete(bl, k)
+			}
+		}
+		for k := range before {
+			if _, ok := bl[k]; !ok {
+				same = false
+				bl[k] = struct{}{}
+			}
+		}
+		if !same {
+			return fmt.Errorf("the generator changed the caller's Config.BlackList")
+		}
+		return nil
+	}
+}
+
 func compile(conf *inspector.Config) error {
 	conf.Buf = &bytes.Buffer{}
+	check := guardBL(conf)
 	c, err := inspector.NewCompiler(conf)
 	if err != nil {
 		return err
 	}
-	return c.Compile()
+	if err = c.Compile(); err != nil {
+		_ = check()
+		return err
+	}
+	return check()
 }
 
 func writeXML(conf *inspector.Config, rel string) error {
 	xc := *conf
 	xc.XML = rel
 	xc.Buf = &bytes.Buffer{}
+	check := guardBL(&xc)
 	c, err := inspector.NewCompiler(&xc)
 	if err != nil {
 		return err
 	}
-	return c.WriteXML()
+	if err = c.WriteXML(); err != nil {
+		_ = check()
+		return err
+	}
+	return check()
 }
 
 func readDir(dir string) map[string][]byte {
